@@ -26,13 +26,15 @@ ASSUMPTIONS = ["ASan/UBSan are the monitor: an access they cannot see (e.g. insi
                "MemorySanitizer is not used (BigInt is a union with deliberately uninitialised wider members)",
                "the Go allocation protocol is re-implemented in C++"]
 
-SAN_CFG = {"asm": "san-asm", "c64": "san-c64", "c32": "san-c32"}
+SAN_CFG = {"asm": "san-asm", "c64": "san-c64", "c32": "san-c32", "g64": "san-g64"}   # g64: g++ -O1 -DNDEBUG with GCC's sanitizer run time (fuzz driver only)
 FILLS = ["zeros", "ones", "valid"] + ["corrupt%d" % k for k in range(9)]
 SUBCHECKS_QUICK = ["C05", "C09", "C13", "C15", "C16", "C18"]
 SUBCHECKS_THOROUGH = ["C01", "C04", "C05", "C06", "C07", "C08", "C09", "C10", "C11", "C12", "C13", "C14", "C15", "C16", "C18", "C19"]
 
 
 def fuzz_exe(cfg):
+    if cfg == "g64":
+        return build.build_exe(SAN_CFG[cfg], "c17_fuzz", ["c17_fuzz.cpp"])
     rt = os.path.dirname(build.asan_runtime())
     return build.build_exe(SAN_CFG[cfg], "c17_fuzz", ["c17_fuzz.cpp"], extra_link=["-Wl,-rpath," + rt])
 
@@ -160,7 +162,7 @@ def shards(ctx):
     for c in SAN_CFG:
         fuzz_exe(c)
     out = []
-    cfgs = ["asm", "c64", "c32"]
+    cfgs = ["asm", "c64", "c32", "g64"]
     for cfg in cfgs:
         for kind in ("params", "secretkey"):
             for comp in (True, False):
@@ -210,6 +212,7 @@ def run_shard(ctx, shard):
                 ctx.ok(True, "parse-accepted-length:%s" % kind, n=stat["lengths_accepted"] if kind not in ("fixed", "placement", "large") else stat["calls"])
                 ctx.extra["objects_accepted"] += stat["objects_accepted"]
                 ctx.extra["remarshalled"] += stat["remarshalled"]
+                ctx.extra["used_afterwards"] += stat.get("used_afterwards", 0)
             ctx.sample({"sub": "fuzz", "cfg": cfg, "kind": kind, "compressed": shard["compressed"], "checked": shard["checked"], "fill": shard["fill"], "stat": stat}, limit=1)
             return
         # a sanitizer report: record it and resume after the failing case
@@ -236,6 +239,9 @@ def finish(merged, cov):
     if not merged.nfail and merged.extra.get("objects_accepted", 0) < 10:
         return "no buffer was ever accepted: the enumeration would be vacuous"
     cov["objects_accepted_and_remarshalled"] = merged.extra.get("remarshalled", 0)
+    cov["valid_objects_used_in_further_calls_after_unmarshal"] = merged.extra.get("used_afterwards", 0)
+    if not merged.extra.get("used_afterwards", 0):
+        return "no unmarshalled valid object was used in further calls"
     cov["evaluations_of_other_checks_under_sanitizers"] = merged.extra.get("subcheck_evaluations", 0)
     cov["evaluations_with_guard_pages"] = merged.extra.get("guarded_evaluations", 0)
     return None
